@@ -1214,7 +1214,10 @@ def array_to_groups_and_locations(
                 return_inverse=True,
                 axis=unique_axis)
         # groups here are the strings; need to restore to values
-        groups = array[group_index]
+        if unique_axis == 1:
+            groups = array[NULL_SLICE, group_index]
+        else:
+            groups = array[group_index]
 
     # NOTE: NumPy 2 can return the inverse with the shape of the input when axis is None
     return groups, locations.reshape(-1)
